@@ -40,6 +40,8 @@ def _extras(rid, opts):
         return (nb + 2, ns + 2) if html_tokens else (nb + 1, ns + 1)
     if rid == 'UserMarkdown':
         return nb - 1 + 3, ns + 2
+    if rid == 'Scheme':
+        return 0, 4
     raise ValueError(rid)
 
 
@@ -337,6 +339,31 @@ def toc_histories(tier):
     return out
 
 
+def scheme_histories(tier):
+    """Scheme rebinds both token lists at construction. Everything that can happen to the active lists while a Scheme context
+    is open (a user token added at each position, a fault, another renderer's context opened and closed inside), followed by a
+    fresh Scheme context running every program and by ordinary Markdown use."""
+    out = []
+    progs = [{'k': 'RENDER', 'doc': p} for p in D.SCHEME_PROGRAMS]
+    after = [{'k': 'CTX', 'R': 'Scheme', 'opts': {}, 'exit': 'normal', 'steps': progs},
+             {'k': 'MD', 'R': 'Html', 'opts': {}, 'doc': D.PROBES['custom']}, {'k': 'BARE', 'doc': D.PROBES['html_script']}]
+    k = 0
+    for tok in W.BENIGN_SPAN + W.FAULT_SPAN + W.BENIGN_BLOCK[:1]:
+        for pos in (range(0, 4) if W.is_span(tok) else [0]):
+            for exit_mode in ('normal', 'propagate'):
+                k += 1
+                steps = [{'k': 'ADD', 'tok': tok, 'pos': pos}] + progs[k % len(progs):] + progs[:k % len(progs)]
+                if exit_mode == 'propagate':
+                    steps.append({'k': 'RENDER', 'doc': '(undefined-var)'})
+                out.append(('scheme', [{'k': 'CTX', 'R': 'Scheme', 'opts': {}, 'exit': exit_mode, 'steps': steps}] + after))
+    for inner in W.RENDERER_IDS + ['Scheme']:
+        for iopts in (W.OPTIONS[inner] if tier == 'thorough' else W.OPTIONS[inner][:1]):
+            docs = ['(+ 1 2)'] if inner == 'Scheme' else [D.PROBES['custom']]
+            out.append(('scheme', [{'k': 'CTX', 'R': 'Scheme', 'opts': {}, 'exit': 'normal',
+                                    'steps': [progs[0], {'k': 'NEST', 'R': inner, 'opts': iopts, 'docs': docs}, progs[1]]}] + after))
+    return out
+
+
 def mutate_histories(tier):
     """'Parse, tweak the tree, render': a document is parsed, its tokens edited in place by the caller, and rendered; then
     the same and other documents are rendered untouched, by the same instance, by another call and as a bare Document."""
@@ -492,8 +519,22 @@ def random_history(rng, tier, fault_free=False, extra_docs=None):
                 hint = None
                 return D.PROBES[name]
             return _pick_doc(rng, thorough, extra_docs)
-        if use_scheme and x < 0.06:
+        if use_scheme and x < 0.03:
             history.append({'k': 'SCHEME', 'doc': D.SCHEME_PROGRAMS[rng.randrange(len(D.SCHEME_PROGRAMS))]})
+        elif use_scheme and x < 0.08:
+            steps = []
+            for _ in range(rng.randint(1, 4)):
+                y = rng.random()
+                if y < 0.25:
+                    tok = (W.BENIGN_SPAN + (W.FAULT_SPAN if kinds else []))[rng.randrange(len(W.BENIGN_SPAN) + (len(W.FAULT_SPAN) if kinds else 0))]
+                    steps.append({'k': 'ADD', 'tok': tok, 'pos': rng.randint(0, 3)})
+                elif y < 0.40:
+                    inner = W.RENDERER_IDS[rng.randrange(len(W.RENDERER_IDS))]
+                    steps.append({'k': 'NEST', 'R': inner, 'opts': W.OPTIONS[inner][rng.randrange(len(W.OPTIONS[inner]))],
+                                  'docs': [D.PROBES['custom']]})
+                else:
+                    steps.append({'k': 'RENDER', 'doc': D.SCHEME_PROGRAMS[rng.randrange(len(D.SCHEME_PROGRAMS))]})
+            history.append({'k': 'CTX', 'R': 'Scheme', 'opts': {}, 'exit': 'normal', 'steps': steps})
         elif x < 0.30:
             opts = {}
             if rng.random() < 0.3:
